@@ -114,6 +114,9 @@ pub fn run_scenario_on(sc: &Value, port: u16, hooks: bool, out: &mut dyn Write, 
         match st["a"].as_str().unwrap_or("") {
             "connect" => {
                 let id = st["id"].as_u64().unwrap();
+                // the sequence number is taken before connecting: the server may accept (and log its
+                // acquire) before connect() has returned here
+                let open_seq = seq();
                 let mut c = match Client::connect(srv.port) {
                     Ok(c) => c,
                     Err(_) => {
@@ -121,7 +124,7 @@ pub fn run_scenario_on(sc: &Value, port: u16, hooks: bool, out: &mut dyn Write, 
                         continue;
                     }
                 };
-                evs.push((seq(), json!({"e": "open", "id": id, "port": c.port})));
+                evs.push((open_seq, json!({"e": "open", "id": id, "port": c.port})));
                 let noop = Frame::consistent(0x0a, &[], &[], &[], id as u32, 0);
                 let _ = c.s.write_all(&noop.bytes());
                 let mut conn = Conn { id, c, answered: false, ended: false };
